@@ -163,8 +163,15 @@ Proof.
 Qed.
 
 (* ---------------------------------------------------------------- the invariant modulo cells *)
-Definition DInv_d (H : hist) (D : dhist) (s : db) : Prop :=
-  DInv H D (set_cell s (sn_cell (H (cur s)))).
+Definition DInv_d (H : hist) (D : dhist) (F : ghost) (s : db) : Prop :=
+  DInv H D F (set_cell s (sn_cell (H (cur s)))).
+
+(* the ghost stamps after memos of s were dropped: what they had *)
+Definition lift (s : db) (F : ghost) : ghost :=
+  fun d => match d_memo s d with
+           | Some md => Some (m_verified md, m_changed md)
+           | None => F d
+           end.
 
 (* the clauses of a memo that speak about its edges *)
 Record edges_ok (H : hist) (D : dhist) (s : db) (q : qkey) (m : memo) : Prop := {
@@ -179,13 +186,13 @@ Record edges_ok (H : hist) (D : dhist) (s : db) (q : qkey) (m : memo) : Prop := 
             m_verified m <= m_verified md
 }.
 
-Lemma edges_ok_of H D s q m : dmemo_ok H D s q m -> edges_ok H D s q m.
-Proof. intros [a b c d e f g h i j k]. constructor; assumption. Qed.
+Lemma edges_ok_of H D F s q m : dmemo_ok H D F s q m -> edges_ok H D s q m.
+Proof. intros [a b c d e f g h i st j k]. constructor; assumption. Qed.
 
 (* ---------------------------------------------------------------- from s under (H, D) to s' under (H', D') *)
 Section Transfer.
-Variables (H : hist) (D : dhist) (H' : hist) (D' : dhist) (s s' : db).
-Hypothesis HI : DInv_d H D s.
+Variables (H : hist) (D : dhist) (F : ghost) (H' : hist) (D' : dhist) (s s' : db).
+Hypothesis HI : DInv_d H D F s.
 Hypothesis Hc : cur s <= cur s'.
 Hypothesis Hlc : forall k, lcs s k <= lcs s' k.
 Hypothesis Hsub : sub_core (d_memo s) (d_memo s').
@@ -194,7 +201,7 @@ Hypothesis Hpast : forall r, r <= cur s -> H' r = H r /\ forall i, D' r i = D r 
 
 Let Hver : forall q m, d_memo s q = Some m -> m_verified m <= cur s.
 Proof.
-  intros q m Hm. pose proof (mo_order _ _ _ _ _ _ _ _ (inv_memo _ _ _ _ _ _ HI q m Hm)) as (_ & _ & A).
+  intros q m Hm. pose proof (mo_order _ _ _ _ _ _ _ _ _ (inv_memo _ _ _ _ _ _ _ HI q m Hm)) as (_ & _ & A).
   exact A.
 Qed.
 
@@ -250,9 +257,9 @@ Lemma edges_sim q m m' :
   edges_ok H' D' s' q m'.
 Proof.
   intros Hm (S1 & S2 & S3 & S4 & S5 & S6) Hd.
-  pose proof (inv_memo _ _ _ _ _ _ HI q m Hm) as Hok.
+  pose proof (inv_memo _ _ _ _ _ _ _ HI q m Hm) as Hok.
   destruct (Hpast (m_verified m) (Hver q m Hm)) as [HHv HDv].
-  destruct Hok as [a0 b0 c0 d0 e0 f0 g0 h0 i0 j0 k0].
+  destruct Hok as [a0 b0 c0 d0 e0 f0 g0 h0 i0 st0 j0 k0].
   constructor; rewrite ?S1, ?S3, ?S4, ?(tr_hist_eq prog NF H H' _ q HHv); auto.
   - intros i Hi. apply S5. apply c0. exact Hi.
   - intros Hu0 d1 Hd1 Hn. apply (good_transfer (m_edges m)); [intros e He; apply S5; exact He|].
@@ -261,6 +268,37 @@ Proof.
   - destruct g0 as [A | A]; [left; exact A | right]. intros d1 Hd1. apply S5. apply A. exact Hd1.
   - intros Hz d1 md' Hd1 Hmd'. destruct (Hd d1 md' Hd1 Hmd') as (md & Hmd & ->).
     apply (k0 Hz d1 md); [apply S5; exact Hd1 | exact Hmd].
+Qed.
+
+(* stamps: the inputs' only grow; a dropped memo leaves its stamp in the ghost table *)
+Hypothesis Hstamp : forall i, f_changed (d_in s i) <= f_changed (d_in s' i).
+
+Let F' := lift s F.
+
+Lemma phi_transfer d c : phi s F d = Some c -> exists c', phi s' F' d = Some c' /\ c <= c'.
+Proof.
+  unfold phi, F', lift. destruct (d_memo s d) as [md|] eqn:Hmd.
+  - intros E0. injection E0 as <-. destruct (d_memo s' d) as [md'|] eqn:Hmd'.
+    + destruct (Hsub d md' Hmd') as (md0 & Hmd0 & (_ & T2 & _)). rewrite Hmd in Hmd0. injection Hmd0 as <-.
+      exists (m_changed md'). split; [reflexivity | lia].
+    + exists (m_changed md). split; [reflexivity | lia].
+  - intros E0. destruct (d_memo s' d) as [md'|] eqn:Hmd'.
+    + destruct (Hsub d md' Hmd') as (md0 & Hmd0 & _). congruence.
+    + exists c. split; [exact E0 | lia].
+Qed.
+
+Lemma sle_transfer c x : sle s F c x -> sle s' F' c x.
+Proof.
+  destruct x as [i | d | cc |]; cbn; auto.
+  - specialize (Hstamp i). lia.
+  - intros (c0 & Hc0 & Hle). destruct (phi_transfer d c0 Hc0) as (c' & Hc' & Hle'). exists c'. split; [exact Hc' | lia].
+Qed.
+
+Lemma prov_transfer q rho c : rho <= cur s -> prov prog NF H s F q rho c -> prov prog NF H' s' F' q rho c.
+Proof.
+  intros Hr [A | (x & Hx & Hs)]; [left; exact A | right].
+  destruct (Hpast rho Hr) as [HHr _].
+  exists x. split; [rewrite (tr_hist_eq prog NF H H' _ q HHr); exact Hx | apply sle_transfer; exact Hs].
 Qed.
 
 Lemma DInv_transfer :
@@ -275,35 +313,58 @@ Lemma DInv_transfer :
      sn_in (H' (r + 1)) i = sn_in (H' r) i /\ D' (r + 1) i = D' r i) ->
   (fm = true -> forall r i, D' r i = 0) ->
   (fm = true -> forall k, 1 <= k -> lcs s' k <= 1) ->
-  DInv H' D' s'.
+  DInv H' D' F' s'.
 Proof.
   intros H1 Hrv Hedges Hin Hdur Hinle Hcell Hd3 Hwr HlD Hlr.
+  assert (Hprov_sd : forall q rho c, prov prog NF H sd F q rho c -> prov prog NF H s F q rho c).
+  { intros q rho c. apply (prov_same prog NF H sd s); reflexivity. }
   constructor; auto.
-  intros q m' Hm'. destruct (Hsub q m' Hm') as (m & Hm & (S1 & S2 & S3 & S6)).
-  pose proof (obs_transfer q (m_verified m) (m_dur m)
-                (obs_s _ _ _ (obs_of_memo prog NF fm H D _ q m (inv_memo _ _ _ _ _ _ HI q m Hm)))) as Ho.
-  destruct (Hedges q m' Hm') as [e1 e2 e3 e4 e5 e6].
-  destruct (Hpast (m_verified m) (Hver q m Hm)) as [HHv HDv].
-  pose proof (mo_order _ _ _ _ _ _ _ _ (inv_memo _ _ _ _ _ _ HI q m Hm)) as (O1 & O2 & O3).
-  constructor; auto; rewrite ?S1, ?S2, ?S3.
-  - change (cur (set_cell s _)) with (cur s) in O3. lia.
-  - intros x Hx. rewrite (E_hist_eq prog NF H H' _ q HHv).
-    apply (mo_val _ _ _ _ _ _ _ _ (inv_memo _ _ _ _ _ _ HI q m Hm)). apply S6. exact Hx.
-  - apply (ob_durge _ _ _ _ _ _ _ _ Ho).
-  - apply (ob_dur3 _ _ _ _ _ _ _ _ Ho).
-  - apply (ob_obs _ _ _ _ _ _ _ _ Ho).
+  - intros q m' Hm'. destruct (Hsub q m' Hm') as (m & Hm & (S1 & S2 & S3 & S6)).
+    pose proof (obs_transfer q (m_verified m) (m_dur m)
+                  (obs_s _ _ _ (obs_of_memo prog NF fm H D F _ q m (inv_memo _ _ _ _ _ _ _ HI q m Hm)))) as Ho.
+    destruct (Hedges q m' Hm') as [e1 e2 e3 e4 e5 e6].
+    destruct (Hpast (m_verified m) (Hver q m Hm)) as [HHv HDv].
+    pose proof (mo_order _ _ _ _ _ _ _ _ _ (inv_memo _ _ _ _ _ _ _ HI q m Hm)) as (O1 & O2 & O3).
+    constructor; auto; rewrite ?S1, ?S2, ?S3.
+    + change (cur (set_cell s _)) with (cur s) in O3. lia.
+    + intros x Hx. rewrite (E_hist_eq prog NF H H' _ q HHv).
+      apply (mo_val _ _ _ _ _ _ _ _ _ (inv_memo _ _ _ _ _ _ _ HI q m Hm)). apply S6. exact Hx.
+    + apply (ob_durge _ _ _ _ _ _ _ _ Ho).
+    + apply (ob_dur3 _ _ _ _ _ _ _ _ Ho).
+    + apply prov_transfer; [apply (Hver q m Hm)|]. apply Hprov_sd.
+      apply (mo_stamp _ _ _ _ _ _ _ _ _ (inv_memo _ _ _ _ _ _ _ HI q m Hm)).
+    + apply (ob_obs _ _ _ _ _ _ _ _ Ho).
+  - (* dropped memos, old and new *)
+    intros d rho c Hn HF. unfold F', lift in HF.
+    destruct (d_memo s d) as [md|] eqn:Hmd.
+    + injection HF as <- <-.
+      pose proof (inv_memo _ _ _ _ _ _ _ HI d md Hmd) as Hok.
+      pose proof (mo_order _ _ _ _ _ _ _ _ _ Hok) as (O1 & O2 & O3).
+      split; [exact O2|]. split.
+      * apply obs_transfer. apply obs_s.
+        destruct (obs_of_memo prog NF fm H D F _ d md Hok) as [a b c0 d0].
+        constructor; auto; [apply (durge_zero prog rank Hrank NF H D) | lia|].
+        intros x mx Hx Hmx Hp. destruct (d0 x mx Hx Hmx Hp) as [A _]. split; [exact A | lia].
+      * apply prov_transfer; [apply (Hver d md Hmd)|]. apply Hprov_sd. apply (mo_stamp _ _ _ _ _ _ _ _ _ Hok).
+    + destruct (inv_ghost _ _ _ _ _ _ _ HI d rho c Hmd HF) as (A & B & C0).
+      split; [exact A|]. split; [apply obs_transfer; apply obs_s; exact B|].
+      apply prov_transfer; [|apply Hprov_sd; exact C0].
+      pose proof (ob_order _ _ _ _ _ _ _ _ B) as (_ & Hr). exact Hr.
 Qed.
 
 End Transfer.
 
-Lemma DInv_to_d H D s : DInv H D s -> DInv_d H D s.
+Lemma DInv_to_d H D F s : DInv H D F s -> DInv_d H D F s.
 Proof.
-  intros [a a' b b' c d e f g l1 l2]. unfold DInv_d. constructor; auto.
-  intros q m Hm. apply (dmemo_ok_same prog NF fm H D s); [reflexivity | reflexivity|].
-  apply g. exact Hm.
+  intros [a a' b b' c d e f g gh l1 l2]. unfold DInv_d. constructor; auto.
+  - intros q m Hm. apply (dmemo_ok_same prog NF fm H D F s); [reflexivity | reflexivity | reflexivity|].
+    apply g. exact Hm.
+  - intros d0 rho c0 Hn HF. destruct (gh d0 rho c0 Hn HF) as (A & B & C0).
+    split; [exact A|]. split; [apply (obs_ok_same prog NF H D s); [reflexivity | reflexivity | exact B]|].
+    apply (prov_same prog NF H s); [reflexivity | reflexivity | exact C0].
 Qed.
 
-Lemma DInv_d_facts H D s : DInv_d H D s ->
+Lemma DInv_d_facts H D F s : DInv_d H D F s ->
   1 <= cur s /\ revs_ok (d_revs s) /\
   (forall q m, d_memo s q = Some m -> m_verified m <= cur s) /\
   (forall i r, f_changed (d_in s i) <= r -> r <= cur s -> sn_in (H r) i = f_val (d_in s i)) /\
@@ -313,33 +374,33 @@ Lemma DInv_d_facts H D s : DInv_d H D s ->
      sn_in (H (r + 1)) i = sn_in (H r) i /\ D (r + 1) i = D r i) /\
   (fm = true -> forall r i, D r i = 0) /\ (fm = true -> forall k, 1 <= k -> lcs s k <= 1).
 Proof.
-  unfold DInv_d. intros [a a' b b' c d e f g l1 l2].
+  unfold DInv_d. intros [a a' b b' c d e f g gh l1 l2].
   split; [exact a|]. split; [exact a'|]. split.
-  - intros q m Hm. pose proof (mo_order _ _ _ _ _ _ _ _ (g q m Hm)) as (_ & _ & Hv). exact Hv.
+  - intros q m Hm. pose proof (mo_order _ _ _ _ _ _ _ _ _ (g q m Hm)) as (_ & _ & Hv). exact Hv.
   - split; [exact b|]. split; [exact b'|]. split; [exact c|]. split; [exact e|].
     split; [exact f|]. split; [exact l1 | exact l2].
 Qed.
 
 (* ---------------------------------------------------------------- "ok" states *)
-Definition OK (s : db) : Prop := exists H D, DInv H D s.
-Definition OK_d (s : db) : Prop := exists H D, DInv_d H D s.
+Definition OK (s : db) : Prop := exists H D F, DInv H D F s.
+Definition OK_d (s : db) : Prop := exists H D F, DInv_d H D F s.
 
 Lemma OK_to_d s : OK s -> OK_d s.
-Proof. intros (H & D & HI). exists H, D. apply DInv_to_d; exact HI. Qed.
+Proof. intros (H & D & F & HI). exists H, D, F. apply DInv_to_d; exact HI. Qed.
 
-Lemma DInv_snap H D s : DInv H D s -> snap_eq (H (cur s)) (csnap s).
+Lemma DInv_snap H D F s : DInv H D F s -> snap_eq (H (cur s)) (csnap s).
 Proof.
   intros HI. split; cbn.
-  - intros i. apply (inv_in _ _ _ _ _ _ HI); [apply (inv_in_le _ _ _ _ _ _ HI) | lia].
-  - apply (inv_cell _ _ _ _ _ _ HI).
+  - intros i. apply (inv_in _ _ _ _ _ _ _ HI); [apply (inv_in_le _ _ _ _ _ _ _ HI) | lia].
+  - apply (inv_cell _ _ _ _ _ _ _ HI).
 Qed.
 
 Lemma OK_d_inputs s : OK_d s ->
   revs_ok (d_revs s) /\ (forall i, f_dur (d_in s i) <= 3) /\
   (fm = true -> (forall i, f_dur (d_in s i) = 0) /\ forall k, 1 <= k -> lcs s k <= 1).
 Proof.
-  intros (H & D & HI).
-  destruct (DInv_d_facts H D s HI) as (F1 & F2 & F3 & F4 & F5 & F6 & F7 & F8 & F9 & F10).
+  intros (H & D & F & HI).
+  destruct (DInv_d_facts H D F s HI) as (F1 & F2 & F3 & F4 & F5 & F6 & F7 & F8 & F9 & F10).
   split; [exact F2|]. split.
   - intros i. rewrite <- (F5 i (cur s)); [apply F7 | apply F6 | lia].
   - intros Hf. split; [|apply (F10 Hf)].
@@ -358,20 +419,20 @@ Lemma OK_d_same s s' :
   OK_d s -> d_revs s' = d_revs s -> d_in s' = d_in s ->
   sub_sim (d_memo s) (d_memo s') -> OK_d s'.
 Proof.
-  intros (H & D & HI) Hr Hi Hev. exists H, D.
-  destruct (DInv_d_facts H D s HI) as (F1 & F2 & F3 & F4 & F5 & F6 & F7 & F8 & F9 & F10).
+  intros (H & D & F & HI) Hr Hi Hev. exists H, D, (lift s F).
+  destruct (DInv_d_facts H D F s HI) as (F1 & F2 & F3 & F4 & F5 & F6 & F7 & F8 & F9 & F10).
   assert (Hc : cur s' = cur s) by (unfold cur; rewrite Hr; reflexivity).
   unfold DInv_d.
   set (s2 := set_cell s' (sn_cell (H (cur s')))).
   assert (Hlc : forall k, lcs s k <= lcs s2 k) by (intros k; unfold lcs; cbn; rewrite Hr; lia).
   assert (Hpast : forall r, r <= cur s -> H r = H r /\ forall i, D r i = D r i) by (intros; split; reflexivity).
-  apply (DInv_transfer H D H D s s2 HI); auto;
+  assert (Hcle : cur s <= cur s2) by (change (cur s2) with (cur s'); lia).
+  assert (Hstamp : forall i, f_changed (d_in s i) <= f_changed (d_in s2 i)) by (intros i; cbn; rewrite Hi; lia).
+  apply (DInv_transfer H D F H D s s2 HI Hcle Hlc (sub_sim_core _ _ Hev) Hpast Hstamp); auto;
     change (cur s2) with (cur s'); change (d_in s2) with (d_in s'); change (d_memo s2) with (d_memo s');
     change (d_revs s2) with (d_revs s'); rewrite ?Hc, ?Hi, ?Hr; auto; try lia.
-  - apply sub_sim_core. exact Hev.
   - intros q m' Hm'. destruct (Hev q m' Hm') as (m & Hm & Hsim).
-    assert (Hcle : cur s <= cur s2) by (change (cur s2) with (cur s'); lia).
-    apply (edges_sim H D H D s s2 HI Hcle Hlc (sub_sim_core _ _ Hev) Hpast q m m' Hm Hsim).
+    apply (edges_sim H D F H D s s2 HI Hcle Hlc (sub_sim_core _ _ Hev) Hpast q m m' Hm Hsim).
     intros d md' _ Hmd'. apply (sub_sim_deps _ _ Hev d md' Hmd').
   - intros r i Hlt Hl. apply F8; [exact Hlt|]. unfold lcs in *. cbn in Hl. rewrite Hr in Hl. exact Hl.
   - intros Hf k Hk. specialize (F10 Hf k Hk). unfold lcs in *. cbn. rewrite Hr. exact F10.
@@ -381,19 +442,19 @@ Lemma OK_same s s' :
   OK s -> d_revs s' = d_revs s -> d_in s' = d_in s -> d_cell s' = d_cell s ->
   sub_sim (d_memo s) (d_memo s') -> OK s'.
 Proof.
-  intros (H & D & HI) Hr Hi Hce Hev. exists H, D.
-  pose proof (DInv_to_d H D s HI) as HId.
-  destruct (DInv_d_facts H D s HId) as (F1 & F2 & F3 & F4 & F5 & F6 & F7 & F8 & F9 & F10).
+  intros (H & D & F & HI) Hr Hi Hce Hev. exists H, D, (lift s F).
+  pose proof (DInv_to_d H D F s HI) as HId.
+  destruct (DInv_d_facts H D F s HId) as (F1 & F2 & F3 & F4 & F5 & F6 & F7 & F8 & F9 & F10).
   assert (Hc : cur s' = cur s) by (unfold cur; rewrite Hr; reflexivity).
   assert (Hlc : forall k, lcs s k <= lcs s' k) by (intros k; unfold lcs; rewrite Hr; lia).
   assert (Hpast : forall r, r <= cur s -> H r = H r /\ forall i, D r i = D r i) by (intros; split; reflexivity).
-  apply (DInv_transfer H D H D s s' HId); rewrite ?Hc, ?Hi, ?Hr; auto; try lia.
-  - apply sub_sim_core. exact Hev.
+  assert (Hcle : cur s <= cur s') by lia.
+  assert (Hstamp : forall i, f_changed (d_in s i) <= f_changed (d_in s' i)) by (intros i; rewrite Hi; lia).
+  apply (DInv_transfer H D F H D s s' HId Hcle Hlc (sub_sim_core _ _ Hev) Hpast Hstamp); rewrite ?Hc, ?Hi, ?Hr; auto; try lia.
   - intros q m' Hm'. destruct (Hev q m' Hm') as (m & Hm & Hsim).
-    assert (Hcle : cur s <= cur s') by lia.
-    apply (edges_sim H D H D s s' HId Hcle Hlc (sub_sim_core _ _ Hev) Hpast q m m' Hm Hsim).
+    apply (edges_sim H D F H D s s' HId Hcle Hlc (sub_sim_core _ _ Hev) Hpast q m m' Hm Hsim).
     intros d md' _ Hmd'. apply (sub_sim_deps _ _ Hev d md' Hmd').
-  - rewrite Hce. apply (inv_cell _ _ _ _ _ _ HI).
+  - rewrite Hce. apply (inv_cell _ _ _ _ _ _ _ HI).
   - intros r i Hlt Hl. apply F8; [exact Hlt|]. unfold lcs in *. rewrite Hr in Hl. exact Hl.
   - intros Hf k Hk. specialize (F10 Hf k Hk). unfold lcs in *. rewrite Hr. exact F10.
 Qed.
@@ -419,20 +480,21 @@ Lemma OK_advance_gen s s' :
   sub_sim (d_memo s) (d_memo s') ->
   OK s' /\ fresh s'.
 Proof.
-  intros (H & D & HI) Hrc Hrv Hlc Hins Hd3 Hlow Hev.
-  destruct (DInv_d_facts H D s HI) as (F1 & F2 & F3 & F4 & F5 & F6 & F7 & F8 & F9 & F10).
+  intros (H & D & F & HI) Hrc Hrv Hlc Hins Hd3 Hlow Hev.
+  destruct (DInv_d_facts H D F s HI) as (F1 & F2 & F3 & F4 & F5 & F6 & F7 & F8 & F9 & F10).
   assert (Hc : cur s' = cur s + 1) by (unfold cur; exact Hrc).
   assert (Hpast : forall r, r <= cur s ->
             extend H (cur s') (csnap s') r = H r /\
             forall i, extendD D (cur s') (durs_of s') r i = D r i).
   { intros r Hr. split; [apply extend_other; lia | intros i; rewrite extendD_other by lia; reflexivity]. }
   split.
-  - exists (extend H (cur s') (csnap s')), (extendD D (cur s') (durs_of s')).
-    apply (DInv_transfer H D _ _ s s' HI); auto; try lia.
-    + apply sub_sim_core. exact Hev.
+  - exists (extend H (cur s') (csnap s')), (extendD D (cur s') (durs_of s')), (lift s F).
+    assert (Hcle : cur s <= cur s') by lia.
+    assert (Hstamp : forall i, f_changed (d_in s i) <= f_changed (d_in s' i)).
+    { intros i. destruct (Hins i) as [-> | (Hst & _)]; [lia|]. rewrite Hst. specialize (F6 i). lia. }
+    apply (DInv_transfer H D F _ _ s s' HI Hcle Hlc (sub_sim_core _ _ Hev) Hpast Hstamp); auto; try lia.
     + intros q m' Hm'. destruct (Hev q m' Hm') as (m & Hm & Hsim).
-      assert (Hcle : cur s <= cur s') by lia.
-      apply (edges_sim H D _ _ s s' HI Hcle Hlc (sub_sim_core _ _ Hev) Hpast q m m' Hm Hsim).
+      apply (edges_sim H D F _ _ s s' HI Hcle Hlc (sub_sim_core _ _ Hev) Hpast q m m' Hm Hsim).
       intros d md' _ Hmd'. apply (sub_sim_deps _ _ Hev d md' Hmd').
     + intros i r Hle Hrc'. destruct (N.eq_dec r (cur s')) as [-> | Hne].
       * rewrite extend_same. reflexivity.
@@ -473,18 +535,18 @@ Lemma OK_revs s s' :
   (fm = true -> forall k, 1 <= k -> lcs s' k <= 1) ->
   d_in s' = d_in s -> d_cell s' = d_cell s -> d_memo s' = d_memo s -> OK s'.
 Proof.
-  intros (H & D & HI) Hc Hrv Hlc Hlow Hi Hce Hm. exists H, D.
-  pose proof (DInv_to_d H D s HI) as HId.
-  destruct (DInv_d_facts H D s HId) as (F1 & F2 & F3 & F4 & F5 & F6 & F7 & F8 & F9 & F10).
+  intros (H & D & F & HI) Hc Hrv Hlc Hlow Hi Hce Hm. exists H, D, (lift s F).
+  pose proof (DInv_to_d H D F s HI) as HId.
+  destruct (DInv_d_facts H D F s HId) as (F1 & F2 & F3 & F4 & F5 & F6 & F7 & F8 & F9 & F10).
   assert (Hev : sub_sim (d_memo s) (d_memo s')) by (rewrite Hm; apply evicted_sub_sim, evicted_refl).
   assert (Hpast : forall r, r <= cur s -> H r = H r /\ forall i, D r i = D r i) by (intros; split; reflexivity).
-  apply (DInv_transfer H D H D s s' HId); rewrite ?Hc, ?Hi; auto; try lia.
-  - apply sub_sim_core. exact Hev.
+  assert (Hcle : cur s <= cur s') by lia.
+  assert (Hstamp : forall i, f_changed (d_in s i) <= f_changed (d_in s' i)) by (intros i; rewrite Hi; lia).
+  apply (DInv_transfer H D F H D s s' HId Hcle Hlc (sub_sim_core _ _ Hev) Hpast Hstamp); rewrite ?Hc, ?Hi; auto; try lia.
   - intros q m' Hm'. destruct (Hev q m' Hm') as (m & Hm0 & Hsim).
-    assert (Hcle : cur s <= cur s') by lia.
-    apply (edges_sim H D H D s s' HId Hcle Hlc (sub_sim_core _ _ Hev) Hpast q m m' Hm0 Hsim).
+    apply (edges_sim H D F H D s s' HId Hcle Hlc (sub_sim_core _ _ Hev) Hpast q m m' Hm0 Hsim).
     intros d md' _ Hmd'. apply (sub_sim_deps _ _ Hev d md' Hmd').
-  - rewrite Hce. apply (inv_cell _ _ _ _ _ _ HI).
+  - rewrite Hce. apply (inv_cell _ _ _ _ _ _ _ HI).
   - intros r i Hlt Hl. apply F8; [exact Hlt|]. specialize (Hlc (D r i)). lia.
 Qed.
 
